@@ -11,6 +11,9 @@ import sys
 import time
 
 VERIF = os.path.dirname(os.path.dirname(os.path.abspath(__file__)))
+# regression sweeps over scratch worktrees (tools/seedtest.sh, tools/benigntest.sh) redirect their evidence so that the
+# committed evidence always comes from a run against /repo itself
+EVIDENCE = os.environ.get('VERIF_EVIDENCE_DIR') or os.path.join(VERIF, 'evidence')
 
 
 class AnalysisError(Exception):
@@ -36,6 +39,9 @@ class Finding:
                 'key': self.key}
 
 
+MAIN_RUN = None      # the first Run of the process (the one a property's main() creates)
+
+
 class Run:
     """Collects what one check run analysed and found."""
 
@@ -56,6 +62,9 @@ class Run:
         self.undecided = []
         self.exhaustive = False
         self._distinct = set()
+        global MAIN_RUN
+        if MAIN_RUN is None:
+            MAIN_RUN = self
 
     # -- recording -----------------------------------------------------
     def rule(self, rid, text):
@@ -114,7 +123,14 @@ class Run:
         self.notes.append(s)
 
     # -- finishing -----------------------------------------------------
-    def finish(self, explanation, checker_cmd):
+    def finish(self, explanation, checker_cmd, partial=None):
+        """partial: message of the AnalysisError that stopped the run after violations had already been established -
+        they are reported (exit 1); the rules that did not run are named in the evidence notes."""
+        if partial is not None:
+            self.controls = [c for c in self.controls if c['fired'] is not False]
+            self.notes.append('INCOMPLETE RUN: the analysis stopped with `%s` after the violations below had been established; '
+                              'the remaining rules of this property were not evaluated' % partial)
+            self.exhaustive = False
         known = load_known()
         listed = {k['key']: k for k in known.get('findings', []) if k.get('property') == self.prop}
         unlisted = []
@@ -130,7 +146,7 @@ class Run:
         for f in known_hit:
             print('KNOWN-FINDING: property=%s %s [%s %s] %s' % (self.prop, listed[f.key].get('what', f.message),
                                                                  f.file, f.func, f.rule))
-        replay_dir = os.path.join(VERIF, 'evidence', 'replay')
+        replay_dir = os.path.join(EVIDENCE, 'replay')
         for f in unlisted:
             os.makedirs(replay_dir, exist_ok=True)
             h = hashlib.sha1(f.key.encode()).hexdigest()[:12]
@@ -175,8 +191,8 @@ class Run:
             'wall_s': round(time.time() - self.t0, 3),
             'violations': len(unlisted),
         }
-        os.makedirs(os.path.join(VERIF, 'evidence'), exist_ok=True)
-        with open(os.path.join(VERIF, 'evidence', '%s.json' % self.prop), 'w') as fh:
+        os.makedirs(EVIDENCE, exist_ok=True)
+        with open(os.path.join(EVIDENCE, '%s.json' % self.prop), 'w') as fh:
             json.dump(ev, fh, indent=1, sort_keys=True, default=str)
         print('%s %s: %d rule instances, %d obligations (%d discharged), %d known finding(s), %d violation(s), %.2fs'
               % (self.prop, self.tier, evaluations, obligations, discharged, len(known_hit), len(unlisted),
@@ -194,9 +210,9 @@ def load_known():
 
 def write_error_evidence(prop, tier, msg):
     """Evidence for a run that ended with an analysis error (still rewritten)."""
-    os.makedirs(os.path.join(VERIF, 'evidence'), exist_ok=True)
+    os.makedirs(EVIDENCE, exist_ok=True)
     ev = {'property_id': prop, 'tier': tier, 'seed': 0, 'level': 'other',
           'coverage': {'explanation': 'ANALYSIS-ERROR: ' + msg, 'evaluations': 0, 'distinct_nontrivial': 0},
           'wall_s': 0.0, 'violations': 0}
-    with open(os.path.join(VERIF, 'evidence', '%s.json' % prop), 'w') as fh:
+    with open(os.path.join(EVIDENCE, '%s.json' % prop), 'w') as fh:
         json.dump(ev, fh, indent=1)
